@@ -674,7 +674,8 @@ class Check(core.PropertyCheck):
             runs.append(big)
             # design level: the monitor rejects a format_error without escaping and a text/plain declaration
             for tag, kw, clause in (("_noesc", {"Escape": False}, "C12.unescaped_reflection"),
-                                    ("_plain", {"CType": "other"}, "C12.no_html_content_type")):
+                                    ("_plain", {"CType": "other"}, "C12.no_html_content_type"),
+                                    ("_sticky", {"StickyInterim": True}, "C12.h1_bad_framing")):
                 r = ctx.model_check(self.MODEL, self.model_constants("quick") | kw | {"MaxAtoms": 1}, dump=False, tag=tag)
                 if not any(b and b[0] == clause for b in r.bad):
                     raise core.MachineryError(f"C12: design variant {tag} not rejected by the monitor")
